@@ -59,26 +59,46 @@ func (f trFn) lean() string {
 	return f.recv + "_" + f.name
 }
 
+// trIfaceSum: interfaces represented by a sum of the struct types that implement them in the translated code.
+var trIfaceSum = map[string][]string{"Transport": {"WebsocketTransport", "XMPPTransport"}}
+
+// trExtern: functions the translation does not enter. A call becomes a call of a PARAMETER of the translated function
+// (named ext_<name>) with the translatable arguments only; the tie theorems hold for every such parameter.
+var trExtern = map[string]bool{"authPlain": true}
+
 type trCtx struct {
-	p       *pkg
-	info    *types.Info
-	tpkg    *types.Package
-	funcs   map[string]trFn // key -> fn (translated in this file, callable)
-	mutRecv map[string]bool // key -> receiver is assigned
-	structs []string        // struct names in emission order
-	seenSt  map[string]bool
-	cur     *trFnState
+	needRnd     map[string]bool     // key -> calls rand.Intn, directly or through a translated callee
+	needExt     map[string][]string // key -> extern functions called, directly or through a translated callee
+	sums        []string            // interface sums to emit
+	seenSum     map[string]bool
+	p           *pkg
+	info        *types.Info
+	tpkg        *types.Package
+	funcs       map[string]trFn // key -> fn (translated in this file, callable)
+	mutRecv     map[string]bool // key -> receiver is assigned
+	globals     map[string]bool
+	globalDecls []string
+	structs     []string // struct names in emission order
+	stTypes     map[string]*types.Struct
+	seenSt      map[string]bool
+	cur         *trFnState
 }
 
 type trFnState struct {
-	fd      *ast.FuncDecl
-	recv    string // receiver variable name ("" if none)
-	mut     bool
-	results *types.Tuple
-	scope   map[string]int // variable -> block depth of declaration
-	depth   int
-	fuel    int
-	loop    int // > 0 inside a loop body: `return e` is `Step.ret e`
+	fd       *ast.FuncDecl
+	recv     string // receiver variable name ("" if none)
+	mut      bool
+	results  *types.Tuple
+	scope    map[string]int // variable -> block depth of declaration
+	depth    int
+	fuel     int
+	loop     int             // > 0 inside a loop body: `return e` is `Step.ret e`
+	loopVars [][]string      // the assigned-variable tuples of the enclosing loops
+	inSwitch int             // > 0 inside a switch nested in the innermost loop (break would leave the switch)
+	shadowed map[string]int  // variable -> depth of a := that shadows an outer variable
+	named    []string        // named results
+	dropped  map[string]bool // parameters of types outside the subset: not translated, any use fails
+	key      string
 }
 
 type trErr struct{ msg string }
@@ -182,28 +202,45 @@ func (t *trCtx) typ(n ast.Node, ty types.Type) string {
 			return "Int"
 		case u.Kind() == types.Bool || u.Kind() == types.UntypedBool:
 			return "Bool"
+		case u.Kind() == types.Float64 || u.Kind() == types.UntypedFloat:
+			return "GoRT.F64"
 		}
 	case *types.Pointer:
 		return t.typ(n, u.Elem())
 	case *types.Named:
 		name := u.Obj().Name()
 		if name == "error" {
-			return "Bool"
+			return "GoRT.Err"
 		}
 		if u.Obj().Pkg() != nil && u.Obj().Pkg() != t.tpkg {
 			if u.Obj().Pkg().Path() == "time" && name == "Duration" {
 				return "Int"
 			}
+			if _, isSt := u.Underlying().(*types.Struct); isSt && (u.Obj().Pkg().Path() == "stanza" || strings.HasSuffix(u.Obj().Pkg().Path(), "/stanza")) {
+				ln := "stanza_" + name
+				t.needStructT(ln, u)
+				return ln
+			}
 			t.fail(n, "type %s.%s is outside the subset", u.Obj().Pkg().Path(), name)
 		}
 		switch u.Underlying().(type) {
 		case *types.Struct:
-			t.needStruct(name)
+			t.needStructT(name, u)
 			return name
 		case *types.Interface:
 			if as, ok := trIfaceAs[name]; ok {
 				t.needStruct(as)
 				return as
+			}
+			if alts, ok := trIfaceSum[name]; ok {
+				if !t.seenSum[name] {
+					t.seenSum[name] = true
+					for _, a := range alts {
+						t.needStruct(a)
+					}
+					t.sums = append(t.sums, name)
+				}
+				return name
 			}
 		}
 		return t.typ(n, u.Underlying())
@@ -241,19 +278,24 @@ func paren(s string) string {
 }
 
 func (t *trCtx) needStruct(name string) {
+	obj := t.tpkg.Scope().Lookup(name)
+	if obj == nil {
+		t.fail(nil, "struct %s not found", name)
+	}
+	t.needStructT(name, obj.Type())
+}
+
+func (t *trCtx) needStructT(name string, ty types.Type) {
 	if t.seenSt[name] {
 		return
 	}
 	t.seenSt[name] = true
 	// fields first, so that the structures they mention are emitted before this one
-	obj := t.tpkg.Scope().Lookup(name)
-	if obj == nil {
-		t.fail(nil, "struct %s not found", name)
-	}
-	st, ok := obj.Type().Underlying().(*types.Struct)
+	st, ok := ty.Underlying().(*types.Struct)
 	if !ok {
 		t.fail(nil, "%s is not a struct", name)
 	}
+	t.stTypes[name] = st
 	for i := 0; i < st.NumFields(); i++ {
 		func() {
 			defer func() { recover() }()
@@ -264,7 +306,7 @@ func (t *trCtx) needStruct(name string) {
 }
 
 func (t *trCtx) structDecl(name string) string {
-	st := t.tpkg.Scope().Lookup(name).Type().Underlying().(*types.Struct)
+	st := t.stTypes[name]
 	var sb strings.Builder
 	var skipped []string
 	fmt.Fprintf(&sb, "structure %s where\n  isNil : Bool := false\n", name)
@@ -336,7 +378,7 @@ func (t *trCtx) zero(n ast.Node, ty types.Type) string {
 		if !isErrorType(ty) {
 			return lt + ".nil"
 		}
-		return "false"
+		return "GoRT.Err.none"
 	}
 	return "(default : " + lt + ")"
 }
@@ -346,7 +388,7 @@ func (t *trCtx) nilOf(n ast.Node, ty types.Type) string {
 		t.fail(n, "nil of unknown type")
 	}
 	if isErrorType(ty) {
-		return "false"
+		return "GoRT.Err.none"
 	}
 	switch ty.Underlying().(type) {
 	case *types.Slice:
@@ -378,6 +420,18 @@ func (t *trCtx) expr(e ast.Expr) string {
 			}
 			if c, isConst := o.(*types.Const); isConst && o.Parent() != nil && o.Parent() == t.tpkg.Scope() {
 				return t.constVal(x, c)
+			}
+			if v, isVar := o.(*types.Var); isVar && o.Parent() == t.tpkg.Scope() {
+				// a package-level variable: an opaque constant of the generated module (its value is not translated)
+				if !t.globals[x.Name] {
+					t.globals[x.Name] = true
+					t.globalDecls = append(t.globalDecls, "/-- package-level variable `"+x.Name+"`: its value is not translated -/\nopaque "+leanIdent(x.Name)+" : "+t.typ(x, v.Type())+"\n")
+				}
+			}
+		}
+		if t.cur != nil && t.cur.dropped[x.Name] {
+			if _, local := t.cur.scope[x.Name]; !local {
+				t.fail(x, "use of %s, whose type is outside the subset", x.Name)
 			}
 		}
 		return leanIdent(x.Name)
@@ -416,6 +470,9 @@ func (t *trCtx) expr(e ast.Expr) string {
 	case *ast.SelectorExpr:
 		if id, ok := x.X.(*ast.Ident); ok {
 			if _, isPkg := t.info.Uses[id].(*types.PkgName); isPkg {
+				if c, ok := t.info.Uses[x.Sel].(*types.Const); ok {
+					return t.constVal(x, c)
+				}
 				t.fail(x, "%s.%s used as a value is outside the subset", id.Name, x.Sel.Name)
 			}
 		}
@@ -502,7 +559,7 @@ func (t *trCtx) binary(x *ast.BinaryExpr) string {
 			var isnil string
 			switch {
 			case isErrorType(ty):
-				isnil = "(!" + t.atom(other) + ")"
+				isnil = "(!" + t.atom(other) + ".isErr)"
 			default:
 				switch ty.Underlying().(type) {
 				case *types.Pointer, *types.Interface:
@@ -590,6 +647,16 @@ func (t *trCtx) composite(x *ast.CompositeLit) string {
 	return ""
 }
 
+func (t *trCtx) translatable(ty types.Type) (ok bool) {
+	defer func() {
+		if recover() != nil {
+			ok = false
+		}
+	}()
+	t.typ(nil, ty)
+	return true
+}
+
 func (t *trCtx) fieldTranslated(st *types.Struct, name string) (ok bool) {
 	for i := 0; i < st.NumFields(); i++ {
 		if st.Field(i).Name() == name {
@@ -604,6 +671,9 @@ func (t *trCtx) fieldTranslated(st *types.Struct, name string) (ok bool) {
 	}
 	return false
 }
+
+// float64 library functions over the ideal (integer valued, unrounded) floats of GoRT
+var trFloat = map[string]string{"math.Min": "GoRT.math_Min", "math.Max": "GoRT.math_Max", "math.Pow": "GoRT.math_Pow", "math.Trunc": "GoRT.math_Trunc"}
 
 // library functions GoRT defines; the value is the Lean name
 var trLib = map[string]string{
@@ -641,25 +711,32 @@ func (t *trCtx) call(x *ast.CallExpr) string {
 				t.fail(x, "new of unknown type")
 			}
 			return "(default : " + t.typ(x, ty) + ")"
-		case "int", "int64", "int32", "uint", "string", "rune":
+		case "int", "int64", "int32", "uint", "string", "rune", "float64":
 			if tv, ok := t.info.Types[f]; ok && tv.IsType() {
-				at := t.tyOf(x.Args[0])
-				rt := t.tyOf(x)
-				if at != nil && rt != nil && t.typ(x, at) == t.typ(x, rt) {
-					return t.expr(x.Args[0])
-				}
-				t.fail(x, "conversion %s(%s) is outside the subset", f.Name, at)
+				return t.convert(x, x.Args[0], t.tyOf(x))
 			}
+		}
+		if o, ok := t.info.Uses[f].(*types.Func); ok && o.Pkg() == t.tpkg && trExtern[f.Name] {
+			s := "ext_" + f.Name
+			for _, a := range x.Args {
+				if at := t.tyOf(a); at != nil && t.translatable(at) {
+					s += " " + t.atom(a)
+				}
+			}
+			return "(" + s + ")"
+		}
+		if o, ok := t.info.Uses[f].(*types.Func); ok && o.Pkg() == t.tpkg && f.Name == "NewConnError" && len(x.Args) == 2 {
+			return "(GoRT.Err.conn " + t.atom(x.Args[1]) + ")"
 		}
 		if o, ok := t.info.Uses[f].(*types.Func); ok && o.Pkg() == t.tpkg {
 			fn, ok := t.funcs[f.Name]
 			if !ok {
 				t.fail(x, "function %s is not translated", f.Name)
 			}
-			if len(x.Args) == 0 {
+			if len(x.Args) == 0 && t.extraArgs(fn.key()) == "" {
 				return fn.lean()
 			}
-			return "(" + fn.lean() + " " + args() + ")"
+			return "(" + fn.lean() + t.extraArgs(fn.key()) + " " + args() + ")"
 		}
 		// a call of a function-valued variable
 		if _, ok := t.tyOf(f).(*types.Signature); ok {
@@ -667,11 +744,20 @@ func (t *trCtx) call(x *ast.CallExpr) string {
 		}
 		t.fail(x, "call of %s is outside the subset", f.Name)
 	case *ast.SelectorExpr:
+		if tv, ok := t.info.Types[f]; ok && tv.IsType() && len(x.Args) == 1 {
+			return t.convert(x, x.Args[0], tv.Type) // e.g. time.Duration(d)
+		}
 		if id, ok := f.X.(*ast.Ident); ok {
 			if pn, isPkg := t.info.Uses[id].(*types.PkgName); isPkg {
 				q := pn.Imported().Path() + "." + f.Sel.Name
 				if q == "fmt.Errorf" || q == "errors.New" {
-					return "true"
+					return "GoRT.Err.plain"
+				}
+				if l, ok := trFloat[q]; ok {
+					return "(" + l + " " + args() + ")"
+				}
+				if q == "math/rand.Intn" {
+					return "(rnd " + args() + ")"
 				}
 				if l, ok := trLib[q]; ok {
 					return "(" + l + " " + args() + ")"
@@ -693,7 +779,7 @@ func (t *trCtx) call(x *ast.CallExpr) string {
 				if t.mutRecv[fn.key()] {
 					t.fail(x, "call of %s, which assigns its receiver, in expression position is outside the subset", fn.key())
 				}
-				s := fn.lean() + " " + t.atom(f.X)
+				s := fn.lean() + t.extraArgs(fn.key()) + " " + t.atom(f.X)
 				if len(x.Args) > 0 {
 					s += " " + args()
 				}
@@ -709,6 +795,25 @@ func (t *trCtx) call(x *ast.CallExpr) string {
 		return "(" + t.call(inner) + " " + args() + ")"
 	}
 	t.fail(x, "call %s is outside the subset", exprString(x.Fun))
+	return ""
+}
+
+// convert translates the conversion T(arg)
+func (t *trCtx) convert(n ast.Node, arg ast.Expr, to types.Type) string {
+	at := t.tyOf(arg)
+	if at == nil || to == nil {
+		t.fail(n, "conversion of unknown type")
+	}
+	from, dst := t.typ(n, at), t.typ(n, to)
+	switch {
+	case from == dst:
+		return t.expr(arg)
+	case from == "Int" && dst == "GoRT.F64":
+		return "(GoRT.F64.ofInt " + t.atom(arg) + ")"
+	case from == "GoRT.F64" && dst == "Int":
+		return "(GoRT.F64.toInt " + t.atom(arg) + ")"
+	}
+	t.fail(n, "conversion from %s to %s is outside the subset", at, to)
 	return ""
 }
 
@@ -747,15 +852,33 @@ func (t *trCtx) ret(n ast.Node, es []ast.Expr) string {
 	if c.results != nil {
 		nres = c.results.Len()
 	}
-	if len(es) != nres {
-		t.fail(n, "return with %d values for %d results (named results are outside the subset)", len(es), nres)
+	if len(es) == 0 && len(c.named) == nres {
+		for _, nm := range c.named {
+			parts = append(parts, leanIdent(nm))
+		}
+	} else if len(es) != nres {
+		t.fail(n, "return with %d values for %d results", len(es), nres)
 	}
 	for i, e := range es {
+		rty := c.results.At(i).Type()
 		if isNilIdent(e) {
-			parts = append(parts, t.nilOf(e, c.results.At(i).Type()))
-		} else {
-			parts = append(parts, t.expr(e))
+			parts = append(parts, t.nilOf(e, rty))
+			continue
 		}
+		v := t.expr(e)
+		if nt, ok := rty.(*types.Named); ok {
+			if _, isSum := trIfaceSum[nt.Obj().Name()]; isSum {
+				et := t.tyOf(e)
+				if pt, ok := et.(*types.Pointer); ok {
+					et = pt.Elem()
+				}
+				if en, ok := et.(*types.Named); ok && en != nt {
+					t.typ(e, rty)
+					v = "(" + nt.Obj().Name() + "." + en.Obj().Name() + " " + t.atom(e) + ")"
+				}
+			}
+		}
+		parts = append(parts, v)
 	}
 	if c.mut {
 		parts = append(parts, leanIdent(c.recv))
@@ -950,6 +1073,14 @@ func (t *trCtx) stmts(list []ast.Stmt, ind string, k func(ind string) string) st
 			t.fail(x, "switch without a tag or with an initialiser is outside the subset")
 		}
 		tag := t.atom(x.Tag)
+		t.cur.inSwitch++
+		defer func() { t.cur.inSwitch-- }()
+		contSw := cont
+		cont = func(ind string) string {
+			t.cur.inSwitch--
+			defer func() { t.cur.inSwitch++ }()
+			return contSw(ind)
+		}
 		var def []ast.Stmt
 		hasDef := false
 		out := ""
@@ -981,7 +1112,31 @@ func (t *trCtx) stmts(list []ast.Stmt, ind string, k func(ind string) string) st
 	case *ast.RangeStmt:
 		return t.rangeStmt(x, ind, cont)
 	case *ast.ExprStmt:
+		if c, ok := x.X.(*ast.CallExpr); ok {
+			if fn, recv, ok := t.mutCall(c); ok {
+				lhs := leanIdent(recv)
+				if n := t.resultCount(fn); n > 0 {
+					lhs = "(" + strings.Repeat("_, ", n) + lhs + ")"
+				}
+				return ind + "let " + lhs + " := " + t.callMut(c, fn) + "\n" + cont(ind)
+			}
+		}
 		t.fail(x, "expression statement %s is outside the subset", exprString(x.X))
+	case *ast.BranchStmt:
+		if x.Label != nil || t.cur.loop == 0 || len(t.cur.loopVars) == 0 {
+			t.fail(x, "%s here is outside the subset", x.Tok)
+		}
+		vs := t.cur.loopVars[len(t.cur.loopVars)-1]
+		switch x.Tok {
+		case token.BREAK:
+			if t.cur.inSwitch > 0 {
+				t.fail(x, "break inside a switch is outside the subset")
+			}
+			return ind + "GoRT.Step.brk " + tupleOf(vs)
+		case token.CONTINUE:
+			return ind + "GoRT.Step.next " + tupleOf(vs)
+		}
+		t.fail(x, "%s is outside the subset", x.Tok)
 	}
 	t.fail(s, "statement %T is outside the subset", s)
 	return ""
@@ -994,8 +1149,18 @@ func (t *trCtx) block(list []ast.Stmt, ind string, cont func(string) string) str
 		saved[k] = v
 	}
 	d := t.cur.depth
+	savedSh := map[string]int{}
+	for k, v := range t.cur.shadowed {
+		savedSh[k] = v
+	}
+	defer func() { t.cur.shadowed = savedSh }()
 	out := t.stmts(list, ind, func(ind string) string {
 		// leaving the block: its declarations go out of scope
+		for name, dd := range t.cur.shadowed {
+			if dd >= d {
+				t.fail(nil, "variable %s shadows an outer variable in a block that control can leave through its end: outside the subset", name)
+			}
+		}
 		inner := t.cur.scope
 		t.cur.scope = saved
 		t.cur.depth = d - 1
@@ -1014,7 +1179,11 @@ func (t *trCtx) declare(id *ast.Ident) {
 		return
 	}
 	if d, ok := t.cur.scope[id.Name]; ok && d < t.cur.depth {
-		t.fail(id, "variable %s shadows an outer variable: outside the subset", id.Name)
+		// harmless as long as control never leaves the block through its end (checked in block)
+		if t.cur.shadowed == nil {
+			t.cur.shadowed = map[string]int{}
+		}
+		t.cur.shadowed[id.Name] = t.cur.depth
 	}
 	t.cur.scope[id.Name] = t.cur.depth
 }
@@ -1074,6 +1243,9 @@ func (t *trCtx) assign(x *ast.AssignStmt, ind string) string {
 		}
 		// a, b := f(x) with a tuple result
 		if c, ok := x.Rhs[0].(*ast.CallExpr); ok {
+			if fn, recv, ok := t.mutCall(c); ok {
+				return ind + "let (" + t.lhsName(x.Lhs[0]) + ", " + t.lhsName(x.Lhs[1]) + ", " + leanIdent(recv) + ") := " + t.callMut(c, fn) + "\n"
+			}
 			return ind + "let (" + t.lhsName(x.Lhs[0]) + ", " + t.lhsName(x.Lhs[1]) + ") := " + t.call(c) + "\n"
 		}
 	}
@@ -1081,6 +1253,11 @@ func (t *trCtx) assign(x *ast.AssignStmt, ind string) string {
 		t.fail(x, "assignment with %d targets and %d values is outside the subset", len(x.Lhs), len(x.Rhs))
 	}
 	if len(x.Lhs) == 1 {
+		if c, ok := x.Rhs[0].(*ast.CallExpr); ok {
+			if fn, recv, ok := t.mutCall(c); ok {
+				return ind + "let (" + t.lhsName(x.Lhs[0]) + ", " + leanIdent(recv) + ") := " + t.callMut(c, fn) + "\n"
+			}
+		}
 		val := ""
 		if isNilIdent(x.Rhs[0]) {
 			val = t.nilOf(x, t.tyOf(x.Lhs[0]))
@@ -1098,6 +1275,71 @@ func (t *trCtx) assign(x *ast.AssignStmt, ind string) string {
 		out += t.store(l, fmt.Sprintf("tmp%d", i), ind)
 	}
 	return out
+}
+
+// mutCall recognises `v.M(args)` where v is a variable and M a translated method that assigns its receiver.
+func (t *trCtx) mutCall(c *ast.CallExpr) (trFn, string, bool) {
+	sel, ok := c.Fun.(*ast.SelectorExpr)
+	if !ok {
+		return trFn{}, "", false
+	}
+	id, ok := sel.X.(*ast.Ident)
+	if !ok {
+		return trFn{}, "", false
+	}
+	rt := t.tyOf(id)
+	if rt == nil {
+		return trFn{}, "", false
+	}
+	if p, ok := rt.(*types.Pointer); ok {
+		rt = p.Elem()
+	}
+	n, ok := rt.(*types.Named)
+	if !ok {
+		return trFn{}, "", false
+	}
+	fn, ok := t.funcs[n.Obj().Name()+"."+sel.Sel.Name]
+	if !ok || !t.mutRecv[fn.key()] {
+		return trFn{}, "", false
+	}
+	return fn, id.Name, true
+}
+
+func (t *trCtx) resultCount(fn trFn) int {
+	fd := t.p.fn(fn.recv, fn.name)
+	if fd == nil || fd.Type.Results == nil {
+		return 0
+	}
+	n := 0
+	for _, f := range fd.Type.Results.List {
+		if len(f.Names) == 0 {
+			n++
+		} else {
+			n += len(f.Names)
+		}
+	}
+	return n
+}
+
+func (t *trCtx) callMut(c *ast.CallExpr, fn trFn) string {
+	sel := c.Fun.(*ast.SelectorExpr)
+	s := fn.lean() + t.extraArgs(fn.key()) + " " + t.atom(sel.X)
+	for _, a := range c.Args {
+		s += " " + t.atom(a)
+	}
+	return "(" + s + ")"
+}
+
+// extraArgs: the oracle / extern parameters a translated function takes before its own
+func (t *trCtx) extraArgs(key string) string {
+	s := ""
+	if t.needRnd[key] {
+		s += " rnd"
+	}
+	for _, e := range t.needExt[key] {
+		s += " ext_" + e
+	}
+	return s
 }
 
 func (t *trCtx) lhsName(e ast.Expr) string {
@@ -1130,7 +1372,7 @@ func (t *trCtx) loopTail(vs []string, ind string, cont func(string) string) stri
 	if t.cur.loop > 0 {
 		rv = "GoRT.Step.ret v"
 	}
-	return ind + "with\n" + ind + "| .ret v => " + rv + "\n" + ind + "| .next " + tupleOf(vs) + " =>\n" + cont(ind+"  ")
+	return ind + "with\n" + ind + "| .ret v => " + rv + "\n" + ind + "| .fin " + tupleOf(vs) + " =>\n" + cont(ind+"  ")
 }
 
 func (t *trCtx) forStmt(x *ast.ForStmt, ind string, cont func(string) string) string {
@@ -1166,12 +1408,17 @@ func (t *trCtx) forStmt(x *ast.ForStmt, ind string, cont func(string) string) st
 	t.cur.depth++
 	t.cur.scope[iv.Name] = t.cur.depth
 	t.cur.loop++
+	t.cur.loopVars = append(t.cur.loopVars, vs)
+	savedSw := t.cur.inSwitch
+	t.cur.inSwitch = 0
 	body := t.block(x.Body.List, ind+"    ", func(ind string) string { return ind + "GoRT.Step.next " + tupleOf(vs) })
 	t.cur.loop--
+	t.cur.loopVars = t.cur.loopVars[:len(t.cur.loopVars)-1]
+	t.cur.inSwitch = savedSw
 	delete(t.cur.scope, iv.Name)
 	t.cur.depth--
 	return ind + "match (GoRT.forRange " + lo + " " + hi + " (fun (" + leanIdent(iv.Name) + " : Int) " + tupleOf(vs) + " =>\n" + body + ")\n" +
-		ind + "    " + tupleOf(vs) + " : GoRT.Step (" + t.retType() + ") _)\n" + t.loopTail(vs, ind, cont)
+		ind + "    " + tupleOf(vs) + " : GoRT.Done (" + t.retType() + ") _)\n" + t.loopTail(vs, ind, cont)
 }
 
 func (t *trCtx) rangeStmt(x *ast.RangeStmt, ind string, cont func(string) string) string {
@@ -1211,8 +1458,13 @@ func (t *trCtx) rangeStmt(x *ast.RangeStmt, ind string, cont func(string) string
 		}
 	}
 	t.cur.loop++
+	t.cur.loopVars = append(t.cur.loopVars, vs)
+	savedSw := t.cur.inSwitch
+	t.cur.inSwitch = 0
 	body := t.block(x.Body.List, ind+"    ", func(ind string) string { return ind + "GoRT.Step.next " + tupleOf(vs) })
 	t.cur.loop--
+	t.cur.loopVars = t.cur.loopVars[:len(t.cur.loopVars)-1]
+	t.cur.inSwitch = savedSw
 	if id, ok := x.Key.(*ast.Ident); ok {
 		delete(t.cur.scope, id.Name)
 	}
@@ -1221,7 +1473,7 @@ func (t *trCtx) rangeStmt(x *ast.RangeStmt, ind string, cont func(string) string
 	}
 	t.cur.depth--
 	return ind + "match (GoRT.forEach " + t.atom(x.X) + " (fun (" + key + " : Int) " + val + " " + tupleOf(vs) + " =>\n" + body + ")\n" +
-		ind + "    " + tupleOf(vs) + " : GoRT.Step (" + t.retType() + ") _)\n" + t.loopTail(vs, ind, cont)
+		ind + "    " + tupleOf(vs) + " : GoRT.Done (" + t.retType() + ") _)\n" + t.loopTail(vs, ind, cont)
 }
 
 // ---------------------------------------------------------------------------------------------------------------
@@ -1274,7 +1526,7 @@ func (t *trCtx) function(f trFn) (out string) {
 		t.fail(fd, "no type information")
 	}
 	sig := obj.Type().(*types.Signature)
-	st := &trFnState{fd: fd, results: sig.Results(), scope: map[string]int{}, fuel: 400}
+	st := &trFnState{fd: fd, results: sig.Results(), scope: map[string]int{}, fuel: 400, key: f.key()}
 	t.cur = st
 	var ps []string
 	if fd.Recv != nil {
@@ -1287,22 +1539,150 @@ func (t *trCtx) function(f trFn) (out string) {
 			ps = append(ps, "(_ : "+t.typ(fd, sig.Recv().Type())+")")
 		}
 	}
+	st.dropped = map[string]bool{}
 	for i := 0; i < sig.Params().Len(); i++ {
 		p := sig.Params().At(i)
+		if !t.translatable(p.Type()) {
+			st.dropped[p.Name()] = true
+			continue
+		}
 		ps = append(ps, "("+leanIdent(p.Name())+" : "+t.typ(fd, p.Type())+")")
 		st.scope[p.Name()] = 0
 	}
+	pre := ""
 	if sig.Results() != nil {
 		for i := 0; i < sig.Results().Len(); i++ {
-			if sig.Results().At(i).Name() != "" {
-				t.fail(fd, "named results are outside the subset")
+			r := sig.Results().At(i)
+			if r.Name() != "" && r.Name() != "_" {
+				st.named = append(st.named, r.Name())
+				st.scope[r.Name()] = 0
+				pre += "  let " + leanIdent(r.Name()) + " : " + t.typ(fd, r.Type()) + " := " + t.zero(fd, r.Type()) + "\n"
 			}
 		}
 	}
+	var extra []string
+	if t.needRnd[f.key()] {
+		extra = append(extra, "(rnd : Int → Int)")
+	}
+	for _, e := range t.needExt[f.key()] {
+		extra = append(extra, "(ext_"+e+" : "+t.externType(fd, e)+")")
+	}
+	ps = append(extra, ps...)
 	rt := t.retType()
-	body := t.stmts(fd.Body.List, "  ", nil)
+	body := pre + t.stmts(fd.Body.List, "  ", nil)
 	pos := t.p.fset.Position(fd.Pos())
 	return fmt.Sprintf("/-- translation of `%s` (%s) -/\ndef %s %s : %s :=\n%s\n\n", f.key(), shortPath(pos.Filename), f.lean(), strings.Join(ps, " "), rt, body)
+}
+
+// externType: the Lean type of the parameter that stands for an extern function (translatable parameters only)
+func (t *trCtx) externType(n ast.Node, name string) string {
+	obj, _ := t.tpkg.Scope().Lookup(name).(*types.Func)
+	if obj == nil {
+		t.fail(n, "extern %s not found", name)
+	}
+	sig := obj.Type().(*types.Signature)
+	var ps []string
+	for i := 0; i < sig.Params().Len(); i++ {
+		if t.translatable(sig.Params().At(i).Type()) {
+			ps = append(ps, paren(t.typ(n, sig.Params().At(i).Type())))
+		}
+	}
+	return strings.Join(append(ps, paren(t.tuple(n, sig.Results()))), " → ")
+}
+
+// analyse computes, to a fixed point over the translated functions, which of them assign their receiver, draw random
+// numbers or call externs (directly or through a translated callee).
+func (t *trCtx) analyse(fns []trFn) {
+	type facts struct {
+		callees []string
+		selfMut []string // translated methods called on the function's own receiver
+	}
+	fs := map[string]*facts{}
+	for _, f := range fns {
+		fd := t.p.fn(f.recv, f.name)
+		if fd == nil || fd.Body == nil {
+			continue
+		}
+		fc := &facts{}
+		fs[f.key()] = fc
+		t.mutRecv[f.key()] = recvAssigned(fd)
+		recv := ""
+		if fd.Recv != nil && len(fd.Recv.List[0].Names) == 1 {
+			recv = fd.Recv.List[0].Names[0].Name
+		}
+		ext := map[string]bool{}
+		ast.Inspect(fd.Body, func(n ast.Node) bool {
+			c, ok := n.(*ast.CallExpr)
+			if !ok {
+				return true
+			}
+			switch fun := c.Fun.(type) {
+			case *ast.Ident:
+				if trExtern[fun.Name] {
+					ext[fun.Name] = true
+				} else if _, ok := t.funcs[fun.Name]; ok {
+					fc.callees = append(fc.callees, fun.Name)
+				}
+			case *ast.SelectorExpr:
+				if id, ok := fun.X.(*ast.Ident); ok {
+					if pn, isPkg := t.info.Uses[id].(*types.PkgName); isPkg {
+						if pn.Imported().Path() == "math/rand" && fun.Sel.Name == "Intn" {
+							t.needRnd[f.key()] = true
+						}
+						return true
+					}
+				}
+				if o, ok := t.info.Uses[fun.Sel].(*types.Func); ok {
+					if sig, ok := o.Type().(*types.Signature); ok && sig.Recv() != nil {
+						rt := sig.Recv().Type()
+						if p, ok := rt.(*types.Pointer); ok {
+							rt = p.Elem()
+						}
+						if nt, ok := rt.(*types.Named); ok {
+							k := nt.Obj().Name() + "." + fun.Sel.Name
+							if _, ok := t.funcs[k]; ok {
+								fc.callees = append(fc.callees, k)
+								if recv != "" && exprString(fun.X) == recv {
+									fc.selfMut = append(fc.selfMut, k)
+								}
+							}
+						}
+					}
+				}
+			}
+			return true
+		})
+		for e := range ext {
+			t.needExt[f.key()] = append(t.needExt[f.key()], e)
+		}
+		sort.Strings(t.needExt[f.key()])
+	}
+	for changed := true; changed; {
+		changed = false
+		for k, fc := range fs {
+			for _, c := range fc.selfMut {
+				if t.mutRecv[c] && !t.mutRecv[k] {
+					t.mutRecv[k], changed = true, true
+				}
+			}
+			for _, c := range fc.callees {
+				if t.needRnd[c] && !t.needRnd[k] {
+					t.needRnd[k], changed = true, true
+				}
+				for _, e := range t.needExt[c] {
+					has := false
+					for _, e2 := range t.needExt[k] {
+						has = has || e2 == e
+					}
+					if !has {
+						t.needExt[k] = append(t.needExt[k], e)
+						sort.Strings(t.needExt[k])
+						changed = true
+					}
+				}
+			}
+		}
+	}
 }
 
 func shortPath(p string) string {
@@ -1316,19 +1696,28 @@ func shortPath(p string) string {
 func genTr(name string, p *pkg, info *types.Info, tp *types.Package, fns []trFn) *genFile {
 	g := &genFile{name: name}
 	fmt.Fprintf(&g.sb, "-- GENERATED by /verif/go/extract (go2lean, tr.go) from /repo's working tree. Do not edit; never committed as truth.\nimport XmppVerif.GoRT\nset_option linter.unusedVariables false\nnamespace XmppVerif.Gen.%s\nopen XmppVerif\n\n", name)
-	t := &trCtx{p: p, info: info, tpkg: tp, funcs: map[string]trFn{}, mutRecv: map[string]bool{}, seenSt: map[string]bool{}}
+	t := &trCtx{p: p, info: info, tpkg: tp, funcs: map[string]trFn{}, mutRecv: map[string]bool{}, seenSt: map[string]bool{},
+		globals: map[string]bool{}, needRnd: map[string]bool{}, needExt: map[string][]string{}, seenSum: map[string]bool{}, stTypes: map[string]*types.Struct{}}
 	for _, f := range fns {
 		t.funcs[f.key()] = f
-		if fd := p.fn(f.recv, f.name); fd != nil && fd.Body != nil {
-			t.mutRecv[f.key()] = recvAssigned(fd)
-		}
 	}
+	t.analyse(fns)
 	var bodies []string
 	for _, f := range fns {
 		bodies = append(bodies, t.function(f))
 	}
 	for _, s := range t.structs {
 		g.sb.WriteString(t.structDecl(s))
+	}
+	for _, s := range t.sums {
+		fmt.Fprintf(&g.sb, "/-- the interface %s as the sum of the struct types that implement it in the translated code -/\ninductive %s where\n  | nil\n", s, s)
+		for _, a := range trIfaceSum[s] {
+			fmt.Fprintf(&g.sb, "  | %s (v : %s)\n", a, a)
+		}
+		fmt.Fprintf(&g.sb, "  deriving Inhabited, DecidableEq, Repr\ndef %s.isNil : %s → Bool\n  | .nil => true\n  | _ => false\n\n", s, s)
+	}
+	for _, d := range t.globalDecls {
+		g.sb.WriteString(d + "\n")
 	}
 	for _, b := range bodies {
 		g.sb.WriteString(b)
